@@ -5,77 +5,63 @@ import LinfaSpec.Model.Tree
 /-!
 Driver for C14.  Request
 
-  `fit crit=g|e md=none|<n> mws4=<q> mwl4=<q> mid=<f64 hex> xd=<k> xs=<ints2> ys=<nats>
-       ws=none|<ints> wd=<k> pr=<ints2>`
+  `fit ft=64|32 form=<k> crit=g|e md=none|<n> mws4=<q> mwl4=<q> mid=<f64 hex> xd=<k> p=<p> xs=<ints2>
+       ys=<nats> lo=<nats> ws=none|<ints> wd=<k> wq=<q> pr=<ints2> lt=<k>`
 
-features are `int / 2^xd`, weights `int / 2^wd`, `min_weight_split = mws4/4`,
-`min_weight_leaf = mwl4/4` (all exact in f32/f64).  The model runs with `α = Float` (the
-harness fits `DecisionTree<f64, _>`), `β = Float32`.
+features are `int / 2^xd` (exactly representable in the feature type `ft`), weights
+`f32(int / (2^wd * wq))` (`wq = 1`: dyadic, exact; `wq = 10`: decimal weights, rounded to `f32` as
+the harness does), `min_weight_split = mws4/4`, `min_weight_leaf = mwl4/4`, `mid` the
+`min_impurity_decrease` (rounded to `f32` when `ft=32`), `lo` the class indices in the order of the
+label type the harness used.  `form` (calling form / memory layout on the Rust side) and `lt` (label
+type) have no influence on the model; they are validated and ignored.
+
+The model runs with `α = Float` (`DecisionTree<f64, _>`) or `α = Float32` (`DecisionTree<f32, _>`),
+`β = Float32` in both.
 
 Response `panic` or
-  `ok tree=<preorder walk> imp=<importances> pred=<class of every training row, then of every probe row> margin=~<1|0>`
+  `ok tree=<preorder walk> imp=<importances> pred=<class of every training row, then of every probe row>
+      nl=<num_leaves> dmax=<max_depth()> feats=<features(), ascending> bfs=<iter_nodes: depth and L/N per node>`
 
-`margin` is 1 when every discrete decision of the fit is safe to compare, 0 otherwise:
-* a modal tie at any node whose prediction survives (hash-map order decides in linfa):
-  detected by running the model with the two extreme iteration orders;
-* at a node with ≥ 3 classes present, or under the entropy criterion, the f32 score of a split
-  depends on the hash map's summation order / on libm in the last bits: every comparison
-  `score < best_score` and `decrease < min_impurity_decrease` must then be decided with a
-  margin of at least `4e-6`.  With ≤ 2 classes present and Gini the f32 arithmetic is
-  order-independent (two-term sums commute) and compared bit for bit.
+Everything is compared exactly (bit patterns): after the C20 repair of linfa every f32 sum over
+the class map runs in label order (`sorted_frequencies`) and modal ties are decided by label order,
+the model does the same operations in the same order, and `f32::log2` is the platform's `log2f` on
+both sides.
 -/
 namespace LinfaSpec.Drv.C14
 open LinfaSpec.Proto LinfaSpec.Tree
 
 instance : NatCast Float32 := ⟨Float32.ofNat⟩
 
-abbrev P := Params Float Float32
-abbrev D := Data Float Float32
-
 def pow2 (k : Nat) : Float := Float.ofNat (2 ^ k)
 
-/-- tokens of the preorder walk; `tl` marks impurity decreases as tolerance-compared -/
-def walk (tl : Bool) : Tree Float → List String
+/-- number of calling forms the harness knows (see `harness/src/c14.rs`) -/
+def nForms : Nat := 14
+
+section
+variable {α : Type}
+variable [Add α] [Sub α] [Div α] [Neg α] [LT α] [DecidableLT α] [LE α] [DecidableLE α]
+  [OfNat α 0] [NatCast α]
+
+/-- tokens of the preorder walk -/
+def walk (toF64 : α → Float) : Tree α → List String
   | .leaf p d => ["L", toString p, toString d]
   | .node f s dec _ d l r =>
-    ["N", toString f, showF64 s, (if tl then "~" else "") ++ showF64c dec, toString d] ++ walk tl l ++ walk tl r
+    ["N", toString f, showF64 (toF64 s), showF64c (toF64 dec), toString d] ++ walk toF64 l ++ walk toF64 r
   | .half f s dec p d il c =>
-    ["H", toString f, showF64 s, (if tl then "~" else "") ++ showF64c dec, toString p, toString d,
-      (if il then "l" else "r")] ++ walk tl c
+    ["H", toString f, showF64 (toF64 s), showF64c (toF64 dec), toString p, toString d,
+      (if il then "l" else "r")] ++ walk toF64 c
 
-def absF (x : Float) : Float := if x < 0 then -x else x
+def bfsTok : Tree α → String
+  | .node f _ _ _ d _ _ => s!"{d}N{f}"
+  | .leaf p d => s!"{d}L{p}"
+  | .half _ _ _ p d _ _ => s!"{d}L{p}"
 
-/-- smallest distance of a float comparison made while fitting the node with rows `mask`,
-following the unpruned tree `t` that the fit produced (see the file header) -/
-def nodeMargin (Pm : P) (Dt : D) (sorted : List (List (Nat × Float))) (mask : List Bool) (depth : Nat) : Float :=
-  let rows := rowsOf mask
-  let pf := freqOf Dt rows
-  let guarded := decide ((rows.length : Float32) < Pm.minSplit) ||
-    (match Pm.maxDepth with | some d => decide (d ≤ depth) | none => false)
-  if guarded then 1.0
-  else if (presentClasses Dt rows).length ≤ 2 && !Pm.entropy then 1.0
-  else
-    let cands := candidates Pm Dt sorted mask pf
-    match pickBest cands with
-    | none => 1.0
-    | some b =>
-      let bs := b.score.toFloat
-      let widx := (cands.findIdx? fun c => c.score == b.score).getD 0
-      let m1 := (cands.zipIdx).foldl (fun m (c, i) =>
-        if i == widx then m else minS m (absF (c.score.toFloat - bs))) 1.0
-      let dec := Pm.cast (impurity Pm pf) - Pm.cast b.score
-      minS m1 (absF (dec - Pm.minDec))
-
-def marginWalk (Pm : P) (Dt : D) (sorted : List (List (Nat × Float))) : Tree Float → List Bool → Float
-  | .leaf _ d, mask => nodeMargin Pm Dt sorted mask d
-  | .node f s _ _ d l r, mask =>
-    minS (nodeMargin Pm Dt sorted mask d) (minS (marginWalk Pm Dt sorted l (leftMask Dt mask f s))
-      (marginWalk Pm Dt sorted r (rightMask Dt mask f s)))
-  | .half f s _ _ d il c, mask =>
-    minS (nodeMargin Pm Dt sorted mask d)
-      (marginWalk Pm Dt sorted c (if il then leftMask Dt mask f s else rightMask Dt mask f s))
-
-def handleFit (toks : List String) : Option String := do
+/-- the fit in the feature type `α`: `ofF64` = `F::cast` of an `f64`, `toF64` the exact embedding,
+`cast` = `F::cast` of an `f32` -/
+def handleFitG (ofF64 : Float → α) (toF64 : α → Float) (cast : Float32 → α) (toks : List String) :
+    Option String := do
+  let form ← argNat toks "form"
+  let lt ← argNat toks "lt"
   let crit ← arg toks "crit"
   let entropy ← (if crit == "g" then some false else if crit == "e" then some true else none)
   let mdS ← arg toks "md"
@@ -86,37 +72,45 @@ def handleFit (toks : List String) : Option String := do
   let xd ← argNat toks "xd"
   let xsI ← argInts2 toks "xs"
   let ys ← argNats toks "ys"
+  let lo ← argNats toks "lo"
   let wsS ← arg toks "ws"
   let wd ← argNat toks "wd"
+  let wq ← argNat toks "wq"
   let wsI ← (if wsS == "none" then some [] else parseList parseInt wsS)
   let prI ← argInts2 toks "pr"
   let p ← argNat toks "p"
-  let conv := fun (r : List Int) => r.map fun q => Float.ofInt q / pow2 xd
+  let conv := fun (r : List Int) => r.map fun q => ofF64 (Float.ofInt q / pow2 xd)
   let xs := xsI.map conv
-  -- well-formed request: rectangular, one label per row, weights absent or one per row
-  if !(xs.all fun r => r.length == p) || ys.length != xs.length ||
-      !(wsI.isEmpty || wsI.length == xs.length) || !(prI.all fun r => r.length == p) then none
-  let K := (ys.foldl max 0) + 1
-  let Pm : P := { entropy := entropy, maxDepth := md,
-                  minSplit := (Float.ofNat mws4 / 4).toFloat32, minLeaf := (Float.ofNat mwl4 / 4).toFloat32,
-                  minDec := mid, eps := 1e-5, log2 := Float32.log2, cast := Float32.toFloat }
-  let Dt : D := { xs := xs, ys := ys, ws := wsI.map fun q => (Float.ofInt q / pow2 wd).toFloat32, K := K }
+  let K := if ys.isEmpty then 0 else (ys.foldl max 0) + 1
+  -- well-formed request: rectangular, one label per row, weights absent or one per row, `lo` a
+  -- permutation of the class indices
+  if !(xs.all fun r => r.length == p) || ys.length != xs.length || wq == 0 || form ≥ nForms || lt > 3 ||
+      !(wsI.isEmpty || wsI.length == xs.length) || !(prI.all fun r => r.length == p) ||
+      lo.length != K || !((List.range K).all fun c => lo.contains c) then none
+  let Pm : Params α Float32 :=
+    { entropy := entropy, maxDepth := md,
+      minSplit := (Float.ofNat mws4 / 4).toFloat32, minLeaf := (Float.ofNat mwl4 / 4).toFloat32,
+      minDec := ofF64 mid, eps := ofF64 1e-5, log2 := Float32.log2, cast := cast }
+  let Dt : Data α Float32 :=
+    { xs := xs, ys := ys, ws := wsI.map fun q => (Float.ofInt q / (pow2 wd * Float.ofNat wq)).toFloat32,
+      K := K, lord := lo }
   let sorted := sortedAll Dt p
-  let raw1 := fitNode Pm Dt id sorted (Dt.n + 1) (allMask Dt) 0
-  let raw2 := fitNode Pm Dt List.reverse sorted (Dt.n + 1) (allMask Dt) 0
-  match raw1, raw2 with
-  | some u1, some u2 =>
-    let t1 := (prune u1).1
-    let t2 := (prune u2).1
-    let distinct := ((List.range K).filter fun c => ys.contains c).length
-    let tl := entropy || distinct > 2
-    let tie := !(walk tl t1 == walk tl t2)
-    let mg := marginWalk Pm Dt sorted u1 (allMask Dt)
-    let safe := !tie && (mg ≥ 4e-6)
-    let preds := (xs ++ prI.map conv).map fun r => predict r t1
-    some (s!"ok tree={showList id (walk tl t1)} imp={showList (fun x => (if tl then "~" else "") ++ showF64c x) (importances t1 p)} " ++
-      s!"pred={showList toString preds} margin=~{showF64 (if safe then 1.0 else if tie then 0.0 else 0.25)}")
-  | _, _ => some "panic"
+  match fitNode Pm Dt id sorted (fitFuel Pm Dt) (allMask Dt) 0 with
+  | some u =>
+    let t := (prune u).1
+    let preds := (xs ++ prI.map conv).map fun r => predict r t
+    some (s!"ok tree={showList id (walk toF64 t)} imp={showList (fun x => showF64c (toF64 x)) (importances t p)} " ++
+      s!"pred={showList toString preds} nl={numLeaves t} dmax={maxDepthOf t} " ++
+      s!"feats={showList toString (featuresOf t p)} bfs={showList bfsTok (iterNodes t)}")
+  | none => some "panic"
+
+end
+
+def handleFit (toks : List String) : Option String := do
+  let ft ← argNat toks "ft"
+  if ft == 64 then handleFitG (α := Float) id id Float32.toFloat toks
+  else if ft == 32 then handleFitG (α := Float32) Float.toFloat32 Float32.toFloat id toks
+  else none
 
 def handle (toks : List String) : String :=
   let r := match toks with
